@@ -41,7 +41,7 @@ var embPaths = []embPath{
 }
 
 var embSchemes = []string{"https://", "http://", "//", "relative-on-list", "relative-off-list", "no-scheme", "javascript://", "data://"}
-var embCarriers = []string{"iframe", "object-data", "object-param", "tw-iframe", "tw-bq", "tw-bq-nested", "iframe-lazy", "picture-iframe", "iframe-srcdoc", "tw-bq-mxss", "figure-picture-iframe"}
+var embCarriers = []string{"iframe", "object-data", "object-param", "tw-iframe", "tw-bq", "tw-bq-nested", "iframe-lazy", "picture-iframe", "iframe-srcdoc", "tw-bq-mxss", "figure-picture-iframe", "tw-bq-noscript"}
 
 type embCase struct {
 	H       embHost
@@ -143,6 +143,9 @@ func (e embCase) element() string {
 	case "figure-picture-iframe":
 		// the same inside a figure, next to the figure's real image
 		return fmt.Sprintf(`<figure><picture><span><iframe src="%s"></iframe></span><source srcset="/img/%s.webp 1x"><img src="/img/%s.png" width="640" height="480"></picture><figcaption>zz %s</figcaption></figure>`, src, e.ID, e.ID, e.ID)
+	case "tw-bq-noscript":
+		// a tweet quote whose no-script fallback is a frame of another host (text for the parser)
+		return fmt.Sprintf(`<blockquote class="twitter-tweet"><p>hello world</p><noscript><iframe src="https://ads.example.net/n/%s"></iframe></noscript>&mdash; someone <a href="%s">date</a></blockquote>`, e.ID, src)
 	case "tw-bq-nested":
 		// a tweet quote that carries foreign frames inside
 		return fmt.Sprintf(`<blockquote class="twitter-tweet"><p>hello world <iframe src="https://ads.example.net/frame/%s"></iframe></p><div><object data="https://ads.example.net/o.swf"><iframe src="/local/frame.html"></iframe></object></div>&mdash; someone <a href="%s">date</a></blockquote>`, e.ID, src)
@@ -172,7 +175,7 @@ func genEmbedDoc(r *RNG) string {
 func init() {
 	register(&Prop{
 		ID:   "C19",
-		Rule: "full grid every run: 30 hosts (allow-listed roots, their subdomains, suffix look-alikes youtube.com.evil.example, prefix look-alikes evilyoutube.com / xplayer.vimeo.com, vimeo.com itself, userinfo tricks youtube.com@evil.example, upper case, port, trailing dot) x 19 path/query shapes (incl. fragments after the id, no path at all) (/embed/ID, /embed/ID/, /v/ID&x=1, /v/ID?x=1, /video/ID, /ID, container only, root, service name only in path or query, /user/status/ID, parameters+fragment) x 8 source forms (javascript:// and data:// URLs with a host-looking part, https, http, scheme-relative, relative with the page on / off the allow list, host name without scheme = relative path) x 11 carriers (a figure whose picture holds an iframe next to its image, an iframe with srcdoc, a tweet quote whose inert text re-parses into a frame, iframe, object[data], object>param[name=movie], rendered twitter iframe with data-tweet-id, twitter blockquote with the tweet link as last anchor, the same with foreign iframes/objects nested inside, an iframe whose src is foreign while the allow-listed URL sits in data-src, iframes among the children of a <picture>) = 38080 cases, each between two long paragraphs (quick) and additionally inside random articles (thorough). Oracle: a placeholder may exist only if the TRUE host (known by construction) is allow-listed; its data-type must be that service and data-id the id encoded in the URL (last path segment, resp. data-tweet-id); no bare <iframe> may survive. Non-trivial = every grid cell; distinct = distinct cells.",
+		Rule: "full grid every run: 30 hosts (allow-listed roots, their subdomains, suffix look-alikes youtube.com.evil.example, prefix look-alikes evilyoutube.com / xplayer.vimeo.com, vimeo.com itself, userinfo tricks youtube.com@evil.example, upper case, port, trailing dot) x 19 path/query shapes (incl. fragments after the id, no path at all) (/embed/ID, /embed/ID/, /v/ID&x=1, /v/ID?x=1, /video/ID, /ID, container only, root, service name only in path or query, /user/status/ID, parameters+fragment) x 8 source forms (javascript:// and data:// URLs with a host-looking part, https, http, scheme-relative, relative with the page on / off the allow list, host name without scheme = relative path) x 12 carriers (a tweet quote whose noscript fallback is a foreign frame, a figure whose picture holds an iframe next to its image, an iframe with srcdoc, a tweet quote whose inert text re-parses into a frame, iframe, object[data], object>param[name=movie], rendered twitter iframe with data-tweet-id, twitter blockquote with the tweet link as last anchor, the same with foreign iframes/objects nested inside, an iframe whose src is foreign while the allow-listed URL sits in data-src, iframes among the children of a <picture>) = 38080 cases, each between two long paragraphs (quick) and additionally inside random articles (thorough). Oracle: a placeholder may exist only if the TRUE host (known by construction) is allow-listed; its data-type must be that service and data-id the id encoded in the URL (last path segment, resp. data-tweet-id); no bare <iframe> may survive. Non-trivial = every grid cell; distinct = distinct cells.",
 		Assumptions: []string{
 			"'only if': an allow-listed source that is not turned into a placeholder (port, case, unsupported carrier) is not a violation",
 			"the id 'taken from the URL' is the last non-empty path segment (not the container words embed/video), for rendered tweets the data-tweet-id attribute",
@@ -212,6 +215,7 @@ func runC19(c *Ctx, idx int) {
 	}
 	var phs []*html.Node
 	bareIframe, srcdoc := false, false
+	nIframes := 0
 	walk(cr.Res.Node, func(n *html.Node) bool {
 		if n.Type != html.ElementNode {
 			return true
@@ -219,6 +223,9 @@ func runC19(c *Ctx, idx int) {
 		if isPlaceholder(n) {
 			phs = append(phs, n)
 			return true
+		}
+		if n.Data == "iframe" {
+			nIframes++
 		}
 		if n.Data == "iframe" && hasAttr(n, "srcdoc") {
 			srcdoc = true
@@ -232,6 +239,10 @@ func runC19(c *Ctx, idx int) {
 		return true
 	})
 	svc := e.service()
+	if out := outer(cr.Res.Node); strings.Count(strings.ToLower(out), "<iframe") > nIframes {
+		c.Violation("iframe-markup-as-text:"+e.Carrier, "the distilled HTML contains <iframe ...> markup that is not an element of Result.Node (raw text of a noscript element): a frame for every reader without scripting", wit(map[string]any{"result_html": trunc(out, 2000)}))
+		return
+	}
 	if srcdoc {
 		c.Violation("srcdoc-kept:"+e.Carrier, "an <iframe> in the distilled HTML keeps its srcdoc attribute: what it shows is markup of the page, not the allow-listed source", wit(map[string]any{"result_html": trunc(outer(cr.Res.Node), 2000)}))
 		return
